@@ -699,8 +699,8 @@ fn main() {
             Ty::Str => string_literals(if thorough { 4 } else { 3 }),
             Ty::Blk => block_literals(thorough),
         };
-        if *tn == "u8" || *tn == "i8" || *tn == "bool" || (thorough && (*tn == "f32" || *tn == "u16")) {
-            lits.extend(short_numeric_strings(5));
+        if *tn == "u8" || *tn == "i8" || *tn == "bool" || (thorough && (*tn == "f32" || *tn == "u16" || *tn == "i64" || *tn == "f64")) {
+            lits.extend(short_numeric_strings(if thorough && (*tn == "u8" || *tn == "i8") { 6 } else { 5 }));
         }
         // every type also sees a few literals of every other kind
         for x in ["5", "-5", "1.5", "#HFF", "#B101", "#Q17", "'s'", "\"s\"", "#11x", "ON", "abc", "@", "1 1"] {
